@@ -322,7 +322,7 @@ type timer struct {
 func (e *Exec) addTimer(d *Term, what string, fire func()) *timer {
 	// d is a 64-bit signed duration in ns
 	c := e.ctx
-	neg := c.SLt(d, c.BVConst(64, 0))
+	neg := c.SLt(d, e.intConst(64, 0))
 	var when *Term
 	if e.branch(neg) {
 		when = e.now
